@@ -362,6 +362,12 @@ def p_fh_differs(c):
     return out
 
 
+def _first_fold(cv, y):
+    """The first fold of a splitter: a refusal comes before ANY result is produced (a generator
+    that yields a fold and fails afterwards has accepted its input)."""
+    return next(iter(cv.split(y)))
+
+
 def p_bad_int_param(c):
     where, bad = c["where"], BAD_INT[c["fault"]]
     y = mk_y(c)
@@ -371,12 +377,20 @@ def p_bad_int_param(c):
         kw = {"fh": 1, "window_length": 3, "step_length": 1}
         out += expect_accepted(sut(lambda: list(SlidingWindowSplitter(**kw).split(y))), "sliding.split")
         kw[c["param"]] = bad
-        out += expect_rejected(sut(lambda: list(SlidingWindowSplitter(**kw).split(y))), "%s:sliding.split" % tag)
+        out += expect_rejected(sut(lambda: _first_fold(SlidingWindowSplitter(**kw), y)), "%s:sliding.split" % tag)
+        if c["param"] == "window_length":
+            # the (optional) longer first window is a window length like any other: a value that
+            # is not an integer is refused before a first fold is produced
+            ok = {"fh": 1, "window_length": 3, "step_length": 1, "initial_window": 6}
+            out += expect_accepted(sut(lambda: list(SlidingWindowSplitter(**ok).split(y))), "sliding.split(initial_window)")
+            for biw in ({"fractional": 6.5, "string": "6", "zero": 6.0, "negative": -6, "bool_true": True}[c["fault"]],):
+                kb = dict(ok, initial_window=biw)
+                out += expect_rejected(sut(lambda: _first_fold(SlidingWindowSplitter(**kb), y)), "%s_initial_window(%r):sliding.split" % (c["fault"], biw))
     elif where == "expanding":
         kw = {"fh": 1, "initial_window": 3, "step_length": 1}
         out += expect_accepted(sut(lambda: list(ExpandingWindowSplitter(**kw).split(y))), "expanding.split")
         kw["initial_window" if c["param"] == "window_length" else c["param"]] = bad
-        out += expect_rejected(sut(lambda: list(ExpandingWindowSplitter(**kw).split(y))), "%s:expanding.split" % tag)
+        out += expect_rejected(sut(lambda: _first_fold(ExpandingWindowSplitter(**kw), y)), "%s:expanding.split" % tag)
     elif where == "cutoff":
         if c["param"] != "window_length":
             return []
